@@ -154,18 +154,16 @@ theorem dims_pos {data : Bytes} (hok : frameOK data = true) :
       rw [ff.dimsOf (data := data) rfl]
       exact ⟨ff.wpos, ff.hpos⟩
 
-theorem accepted_facts {s : MuxState} (h : Accepted s) : AcceptedFacts s := by
+theorem accepted_facts {s : MuxState} (h : Accepted s) (hfit : Fits s) : AcceptedFacts s := by
   unfold Accepted accepted at h
-  simp only [Bool.and_eq_true, decide_eq_true_eq, List.all_eq_true, Bool.or_eq_true, Bool.not_eq_true'] at h
-  obtain ⟨⟨h1, h2⟩, h3⟩ := h
+  simp only [Bool.and_eq_true, decide_eq_true_eq, List.all_eq_true] at h
+  obtain ⟨h1, h2⟩ := h
   have vf := Webp.Proofs.MuxValidate.validate_facts h1
   have hok : ∀ f ∈ s.frames, frameOK f.data = true :=
     fun f hf => frameOK_of (h2 f hf) (vf.frames f hf).noAlphL
   cases hx : needsVP8X s with
   | true =>
-    rw [hx] at h3
-    simp only [Bool.true_eq_false, false_or] at h3
-    exact ⟨h1, hok, h3, vf.icc, vf.exif, vf.xmp, by rw [if_pos hx]; exact vf.area⟩
+    exact ⟨h1, hok, hfit hx, vf.icc, vf.exif, vf.xmp, by rw [if_pos hx]; exact vf.area⟩
   | false =>
     obtain ⟨f, st⟩ := simpleState h1 hx
     have hfl := vf.flen f (by rw [st.frames]; exact List.mem_cons_self)
@@ -181,6 +179,101 @@ theorem accepted_facts {s : MuxState} (h : Accepted s) : AcceptedFacts s := by
     subst hg
     have hp := dims_pos (hok g (by rw [st.frames]; exact List.mem_cons_self))
     exact canvasSize_single st.frames st.opts st.noCanvas hp.1 hp.2
+
+theorem pair_len (x y : Bytes) (n : Nat) (h : x.length + y.length + 8 ≤ n) :
+    ((((some x, y) : Option Bytes × Bytes).1).getD []).length + ((some x, y) : Option Bytes × Bytes).2.length ≤ n ∧
+    ((((some x, y) : Option Bytes × Bytes).1).isSome →
+      ((((some x, y) : Option Bytes × Bytes).1).getD []).length + ((some x, y) : Option Bytes × Bytes).2.length + 8 ≤ n) := by
+  refine ⟨?_, fun _ => ?_⟩
+  · show x.length + y.length ≤ n; omega
+  · show x.length + y.length + 8 ≤ n; omega
+
+/-- the two parts of ALPH-prefixed frame data are no longer than the data -/
+theorem split_len (d : Bytes) :
+    (((splitAlphaAndBitstream d).1).getD []).length + (splitAlphaAndBitstream d).2.length ≤ d.length ∧
+    ((splitAlphaAndBitstream d).1.isSome →
+      (((splitAlphaAndBitstream d).1).getD []).length + (splitAlphaAndBitstream d).2.length + 8 ≤ d.length) := by
+  rw [split_eq]
+  by_cases h : (d.length ≥ 8 ∧ le32 d 0 = ccALPH) ∧ 8 + le32 d 4 ≤ d.length
+  · rw [if_pos h]
+    have h8 := h.1.1
+    have hle := h.2
+    clear h
+    have e1 : ((d.take (8 + le32 d 4)).drop 8).length = le32 d 4 := by
+      rw [List.length_drop, List.length_take]; omega
+    by_cases hp : le32 d 4 % 2 ≠ 0 ∧ 8 + le32 d 4 < d.length
+    · rw [if_pos hp]
+      apply pair_len
+      rw [e1, List.length_drop]
+      clear e1
+      omega
+    · rw [if_neg hp]
+      apply pair_len
+      rw [e1, List.length_drop]
+      clear e1
+      omega
+  · rw [if_neg h]
+    simp
+
+/-- mux.go assembleExtended refuses, with an error and before writing anything, every extended file
+    whose RIFF payload exceeds the readers' limit 2^32 − 10 -/
+theorem assemble_too_large (s : MuxState) (hv : validate s = .ok ()) (hx : needsVP8X s = true)
+    (hbig : exactRiffSize s > 4294967286) : assemble s = .err .other := by
+  have vf := Webp.Proofs.MuxValidate.validate_facts hv
+  unfold assemble
+  rw [hv, Res.bind_ok, hx]
+  simp only [Bool.not_true, Bool.false_eq_true, if_false]
+  unfold assembleExtended assembleExtendedWith
+  simp only
+  cases hal : anmfTooLarge s with
+  | true => simp only [and_self, if_true]
+  | false =>
+    have hm : Parser.maxMetadataSize = 104857600 := rfl
+    have hopt : ∀ o : Option Bytes, (o.getD []).length ≤ Parser.maxMetadataSize → optLen o < 4294967296 := by
+      intro o h
+      cases o with
+      | none => simp [optLen]
+      | some d => simp only [Option.getD_some] at h; simp only [optLen, padLen]; omega
+    have hf : ∀ f ∈ s.frames, frameLen (isAnimated s) f.data < 4294967296 := by
+      intro f hf
+      have hsl := split_len f.data
+      have hdl := vf.flen f hf
+      have hfl : ∀ b, frameLen b f.data = (if b then 24 else 0) + optLen (splitAlphaAndBitstream f.data).1 +
+          padLen (splitAlphaAndBitstream f.data).2.length := fun b => rfl
+      cases ha : isAnimated s with
+      | true =>
+        unfold anmfTooLarge at hal
+        simp only [ha, Bool.true_and, List.any_eq_false, Parser.anmfChunkSize, Parser.chunkHeaderSize] at hal
+        have := hal f hf
+        have this := Nat.le_of_not_gt (fun hgt => this (decide_eq_true hgt))
+        rw [hfl]
+        cases hα : (splitAlphaAndBitstream f.data).1 with
+        | none => rw [hα] at this; simp only [optLen, padLen, Option.getD_none, List.length_nil, if_true] at this ⊢; omega
+        | some a => rw [hα] at this; simp only [optLen, padLen, Option.getD_some, if_true] at this ⊢; omega
+      | false =>
+        rw [hfl]
+        cases hα : (splitAlphaAndBitstream f.data).1 with
+        | none =>
+          rw [hα] at hsl
+          simp only [optLen, padLen, Option.getD_none, List.length_nil, Bool.false_eq_true, if_false] at hsl ⊢
+          omega
+        | some a =>
+          rw [hα] at hsl
+          simp only [optLen, padLen, Option.getD_some, Option.isSome_some, forall_const, Bool.false_eq_true,
+            if_false] at hsl ⊢
+          omega
+    rw [riffPayload64_eq' s hx (hopt _ vf.icc) (hopt _ vf.exif) (hopt _ vf.xmp) hf]
+    simp only [Bool.false_eq_true, and_false, if_false, if_true]
+    rw [if_pos hbig]
+
+/-- an accepted state on which `Assemble` succeeds fits -/
+theorem fits_of_ok {s : MuxState} {b : Bytes} (hv : validate s = .ok ()) (hb : assemble s = .ok b) : Fits s := by
+  intro hx
+  by_cases h : exactRiffSize s ≤ 4294967286
+  · exact h
+  · have := assemble_too_large s hv hx (by omega)
+    rw [this] at hb
+    cases hb
 
 theorem parseSimpleVP8_of {payload : Bytes} {c : Demux.Chunk} {n w h : Nat}
     (hr : Demux.readChunk payload = .ok (c, n)) (hd : Demux.parseVP8Dimensions c.data = .ok (w, h)) :
